@@ -107,6 +107,46 @@ def src_limits():
     out.append(("same-tag-line-twice", "  @a @b\nFeature: f\n      @a @b\n  Scenario: s\n\t@a @b\n  Scenario: t\n", "en"))
     out.append(("bom-first", "\ufeffFeature: f\n  Scenario: s\n", "en"))
     out.append(("bom-first-comment", "\ufeff# c\nFeature: f\n", "en"))
+    # delimiter runs longer than three characters: the fourth character onwards is media type text (opening) / ignored (closing)
+    for k, (o, c) in enumerate([('""""', '"""'), ('""""json', '""""'), ('"""" x', '"""'), ('````', '```'), ('````md', '````'), ('`````` x', '```'), ('"""`', '"""'), ('```"""', '```'), (' """"""', '"""""" # end')]):
+        out.append((f"fence-run:{k}", f"Feature: f\n  Scenario: s\n    Given x\n      {o}\n      one\n       two\n      {c}\n    And y\n", "en"))
+    # keywords spelled with decomposed characters are not keywords (matching is by code point, not by canonical equivalence)
+    import unicodedata as _ud
+    for k, (hdr, lines) in enumerate([("fr", ["Fonctionnalit\u00e9: f", "  Sc\u00e9nario: s", "    Soit x", "  R\u00e8gle: r", "    Sc\u00e9nario: t", "      \u00c9tant donn\u00e9 y"]),
+                                      ("de", ["Funktionalit\u00e4t: f", "  Szenario: s", "    Angenommen x"]), ("sv", ["Egenskap: e", "  Scenario: s", "    Givet x", "  Abstrakt Scenario: o", "    N\u00e4r <a>", "    Exempel:", "      | a |", "      | 1 |"]),
+                                      ("es", ["Caracter\u00edstica: f", "  Escenario: s", "    Dado x", "    Y z"]), ("pt", ["Funcionalidade: f", "  Cen\u00e1rio: s", "    Dado x", "    Ent\u00e3o z"])]):
+        for j in range(len(lines)):
+            if _ud.normalize("NFD", lines[j]) != lines[j]:
+                body = "\n".join(_ud.normalize("NFD", l) if i == j else l for i, l in enumerate(lines)) + "\n"
+                out.append((f"nfd-keyword:{hdr}:{j}", f"# language: {hdr}\n" + body, "en"))
+                out.append((f"nfd-keyword-default:{hdr}:{j}", body, hdr))
+    # the error limit reached by a builder error (ragged table closed by a tag line) while look-ahead tokens are still queued
+    for k in (8, 9, 10, 11):
+        out.append((f"limit:builder-error-during-lookahead:{k}", "Feature: first\n  Scenario: s\n    Given a\n" + "".join(f"    junk {i}\n" for i in range(k)) +
+                    "    Given a table\n      | a | b |\n      | c |\n    @tag\n\n    # c\n    Scenario: left over\n      Given never reached\n", "en"))
+        out.append((f"limit:builder-error-during-examples-lookahead:{k}", "Feature: first\n  Scenario Outline: s\n    Given a\n" + "".join(f"    junk {i}\n" for i in range(k)) +
+                    "    Examples:\n      | a | b |\n      | c |\n    @tag\n    @tag2\n    Examples: left over\n      | d |\n", "en"))
+    # several examples tables with the same row values under permuted / different headers; the same template under each
+    out.append(("permuted-headers", "Feature: f\n  Scenario Outline: o <a>\n    Given <a> then <b>\n      | <a> | <b> |\n    And doc\n      \"\"\"\n      <a>-<b>\n      \"\"\"\n    Examples:\n      | a | b |\n      | 1 | 2 |\n"
+                "    Examples:\n      | b | a |\n      | 1 | 2 |\n    Examples:\n      | a | c |\n      | 1 | 2 |\n    Examples:\n      | c | b |\n      | 1 | 2 |\n", "en"))
+    out.append(("permuted-headers-next-document", "Feature: g\n  Scenario Outline: o <a>\n    Given <a> then <b>\n      | <a> | <b> |\n    Examples:\n      | b | a |\n      | 1 | 2 |\n", "en"))
+    # a tag line whose comment follows a tab / no-break space / several blanks; a '#' inside and at the start of cells; a '#' after the last pipe
+    out.append(("tag-comment-after-blanks", "@a\t#c\nFeature: f\n  @b\u00a0#c @d\n  @e \t #\n  @f\u3000# @g\n  Scenario: s\n    Given x\n  @h# @i\n  Scenario: t\n", "en"))
+    out.append(("hash-in-cells", "Feature: f\n  Scenario Outline: s\n    Given x\n      | item | # of items | price |\n      | # |#| a #b |\n      |\t# c | d\t#| #|\n    Examples:\n      | # a | b # |\n      | 1 # | # 2 |\n", "en"))
+    # a described scenario / rule / examples after a doc string (the doc string's indentation must not outlive it)
+    out.append(("description-after-docstring:0", "Feature: f\n  Scenario: one\n    Given a\n      \"\"\"\n      text\n      \"\"\"\n\n  Scenario: two\n      described here\n        and here\n    Given b\n", "en"))
+    out.append(("description-after-docstring:1", "Feature: f\n  Scenario Outline: two\n    Given <b>\n        ```\n        t\n        ```\n    Examples:\n            deep\n       | b |\n       | 1 |\n\n  Rule: r\n    a rule description\n", "en"))
+    out.append(("description-after-docstring:2", "Feature: f\n  Background:\n    Given <b>\n    \"\"\"\n    t\n    \"\"\"\n\n  Rule: r\n    a rule description\n     more\n    Example: e\n     described\n", "en"))
+    # keyword types: a document ending on an action / outcome step, then documents whose FIRST step is a conjunction (scenario, outline, background)
+    out.append(("types:ends-with-when", "Feature: f\n  Scenario: s\n    Given a\n    When b\n", "en"))
+    out.append(("types:outline-starts-with-and", "Feature: f\n  Scenario Outline: o\n    And <a>\n    But b\n    Examples:\n      | a |\n      | 1 |\n      | 2 |\n", "en"))
+    out.append(("types:ends-with-then", "Feature: f\n  Scenario Outline: o\n    Then <a>\n    Examples:\n      | a |\n      | 1 |\n", "en"))
+    out.append(("types:scenario-starts-with-but", "Feature: f\n  Background:\n    * b\n  Scenario: s\n    But a\n    And c\n", "en"))
+    out.append(("types:outline-after-outline", "Feature: f\n  Scenario Outline: o\n    When <a>\n    Examples:\n      | a |\n      | 1 |\n  Scenario Outline: p\n    And <a>\n    Examples:\n      | a |\n      | 1 |\n      | 2 |\n", "en"))
+    # a matcher whose default dialect is not English: header-less documents before and after one that switches to English by header
+    for k, s in enumerate(["Fonctionnalit\u00e9: f\n  Sc\u00e9nario: s\n    Soit x\n", "# language: en\nFeature: f\n  Scenario: s\n    Given x\n", "Fonctionnalit\u00e9: g\n  Sc\u00e9nario: t\n    Soit y\n",
+                           "# language: de\nFunktionalit\u00e4t: f\n  Szenario: s\n    Angenommen x\n", "Feature: english without header\n  Scenario: s\n    Given x\n", "# language: fr\nFonctionnalit\u00e9: h\n", "Fonctionnalit\u00e9: i\n"]):
+        out.append((f"french-default:{k}", s, "fr"))
     # documents that leave a matcher in every non-initial state, each followed by ordinary ones (for re-use passes)
     for k, s in enumerate(["Feature: q\n  Scenario: s\n    Given x\n      \"\"\"\n      open\n", "Feature: ok\n  Scenario: s\n    Given x\n      ```\n      c\n      ```\n    And y\n      \"\"\"\n      d\n      \"\"\"\n",
                            "Feature: b\n  Scenario: s\n    Given x\n        ```\n     open\n", "Feature: i\n    indented description\n  Scenario: s\n    Given x\n      \"\"\"\n      d\n      \"\"\"\n",
@@ -283,6 +323,8 @@ def compiler_reuse_pass(rep: Reporter, sources, label: str = "compiler-reuse") -
     def strip(ps):
         return [{k: v for k, v in p.items() if k != "id"} | {"steps": [{a: b for a, b in s.items() if a != "id"} for s in p["steps"]]} for p in ps]
     n = 0
+    import copy
+    held = []
     for name, s, d in sources:
         if known_finding_input(s):
             continue
@@ -294,7 +336,15 @@ def compiler_reuse_pass(rep: Reporter, sources, label: str = "compiler-reuse") -
         n += 1
         try:
             fresh = strip(Compiler().compile(doc))
-            again = strip(shared.compile(doc))
+            result = shared.compile(doc)
+            again = strip(result)
+            for obj, snap, nm in held:
+                if obj != snap and rep.prop in ("C06", "C15"):
+                    rep.violation({"kind": "earlier-pickles-changed"}, {"engine": "reuse", "what": "the pickle list returned for an earlier document changed when the same Compiler "
+                                                                        "compiled a later one", "earlier": nm, "source": s, "was": strip(snap)[:2], "now": strip(obj)[:2]})
+                    held = []
+                    break
+            held = (held + [(result, copy.deepcopy(result), name)])[-2:] if result else held
         except Exception as x:  # noqa: BLE001 -- an exception from compile is itself an observation
             rep.case((label, name))
             if rep.prop in ("C01", "C06", "C07", "C08", "C09", "C10", "C11", "C15"):
